@@ -86,6 +86,7 @@ package headers
 //@   ensures [C01] parent != nil && old(anc(parent, parentHeight)) == nil ==> result0 == nil && result1 == ErrHeaderDataNotFound
 //@   ensures [C01] parent != nil && old(anc(parent, parentHeight)) != nil && old(anc(parent, parentHeight).Hash) != header.PrevBlock ==> result0 == nil && result1 == ErrWrongPreviousHash
 //@   ensures [C01] (result0 == nil) == (result1 != nil)
+//@   ensures [C08.constructor-error-kind] result1 != nil ==> result1 == ErrHeaderDataNotFound || result1 == ErrWrongPreviousHash
 //@   ensures [C01] result1 == nil ==> parent == nil || (old(anc(parent, parentHeight)) != nil && old(anc(parent, parentHeight).Hash) == header.PrevBlock)
 //@   ensures [C01,C09] result1 == nil ==> fresh(result0) && result0.parent == parent && result0.parentHeight == parentHeight && result0.offset == 1 && result0.firstHeader == header && len(result0.headers) == 1 && fresh(result0.headers) && fresh(result0.heightsMap) && result0.heightsMap != nil
 //@   ensures [C01,C09] result1 == nil ==> fresh(last(*result0)) && last(*result0).Header == header && last(*result0).Hash == hashOf(header) && last(*result0).AccumulatedWork != nil && fresh(last(*result0).AccumulatedWork)
@@ -236,6 +237,12 @@ package headers
 //@   ensures [C03.accept-implies-split] result == nil && pk && !known ==> old(forall(j, 0, len(repo.branches), holderAt(repo.branches, header.PrevBlock, j) ==> !splitRefused(repo, hashOf(header), heightVia(repo.branches, header.PrevBlock, j))))
 //@   ensures [C17.refused,C08.marked-invalid] result == nil && pk && !known ==> !old(markedInvalid(repo, hashOf(header)))
 //@   ensures [C08.too-deep] result == nil && pk && !known ==> old(forall(j, 0, len(repo.branches), holderAt(repo.branches, header.PrevBlock, j) ==> !tooDeep(repo, repo.branches[j], findH(repo.branches[j], header.PrevBlock), header.PrevBlock)))
+// Completeness of the verdict table: when the earlier rows do not apply, a marked header and a too-deep fork are
+// refused with their own verdicts, and a header that no row refuses is accepted (the only later failures are the
+// notification and the branch constructor).
+//@   ensures [C17.marked-refused,C08.marked-refused] vb && wv && pk && !known && old(forall(j, 0, len(repo.branches), holderAt(repo.branches, header.PrevBlock, j) ==> !splitRefused(repo, hashOf(header), heightVia(repo.branches, header.PrevBlock, j)) && (needsDAA(repo, heightVia(repo.branches, header.PrevBlock, j)) ==> daaDefined(*repo.branches[j], heightVia(repo.branches, header.PrevBlock, j)) && bitsOf(daa(*repo.branches[j], heightVia(repo.branches, header.PrevBlock, j)), bitcoin.MaxBits) == header.Bits))) && old(markedInvalid(repo, hashOf(header))) ==> cause(result) == ErrHeaderMarkedInvalid
+//@   ensures [C08.too-deep-refused] vb && wv && pk && !known && old(forall(j, 0, len(repo.branches), holderAt(repo.branches, header.PrevBlock, j) ==> !splitRefused(repo, hashOf(header), heightVia(repo.branches, header.PrevBlock, j)) && (needsDAA(repo, heightVia(repo.branches, header.PrevBlock, j)) ==> daaDefined(*repo.branches[j], heightVia(repo.branches, header.PrevBlock, j)) && bitsOf(daa(*repo.branches[j], heightVia(repo.branches, header.PrevBlock, j)), bitcoin.MaxBits) == header.Bits))) && !old(markedInvalid(repo, hashOf(header))) && old(exists(j, 0, len(repo.branches), holderAt(repo.branches, header.PrevBlock, j) && tooDeep(repo, repo.branches[j], findH(repo.branches[j], header.PrevBlock), header.PrevBlock))) ==> cause(result) == ErrBeyondMaxBranchDepth
+//@   ensures [C08.accepts-valid] vb && wv && pk && !known && old(forall(j, 0, len(repo.branches), holderAt(repo.branches, header.PrevBlock, j) ==> !splitRefused(repo, hashOf(header), heightVia(repo.branches, header.PrevBlock, j)) && (needsDAA(repo, heightVia(repo.branches, header.PrevBlock, j)) ==> daaDefined(*repo.branches[j], heightVia(repo.branches, header.PrevBlock, j)) && bitsOf(daa(*repo.branches[j], heightVia(repo.branches, header.PrevBlock, j)), bitcoin.MaxBits) == header.Bits) && !tooDeep(repo, repo.branches[j], findH(repo.branches[j], header.PrevBlock), header.PrevBlock))) && !old(markedInvalid(repo, hashOf(header))) ==> result == nil || errFrom(result, (*Repository).sendBranchUpdate) || cause(result) == ErrHeaderDataNotFound || cause(result) == ErrWrongPreviousHash
 //@   ensures [C08.refusal-frame] result != nil && !errFrom(result, (*Repository).sendBranchUpdate) ==> nochange()
 // New-header stream (C07): what one submission adds to every subscriber channel. extends: the parent is the tip of
 // the branch reported as best. A refusal or duplicate adds nothing (refusal-frame / already-known above).
@@ -308,6 +315,7 @@ package headers
 //@   sortlen 3
 //@   ensures [C02.median-defined] (result2 == nil) == have3(b, height)
 //@   ensures [C02.median-of-three] result2 == nil ==> result0 == tm(suitable3(b, height)) && result1 == suitable3(b, height).AccumulatedWork
+//@   ensures [C08.median-error-kind] result2 != nil ==> cause(result2) == ErrHeaderDataNotFound
 //@   modifies nothing
 //@   loop 1
 //@     modifies elems(list)
@@ -316,6 +324,7 @@ package headers
 
 //@ func (Branch).Target
 //@   ensures [C02.target-defined] (result1 == nil) == daaDefined(b, height)
+//@   ensures [C08.target-error-kind] result1 != nil ==> cause(result1) == ErrHeaderDataNotFound
 //@   ensures [C02.target] result1 == nil ==> result0 != nil && bigv(result0) == daa(b, height)
 //@   modifies nothing
 
